@@ -4,7 +4,6 @@
    debug-build overflow rule (Panic). *)
 From Cam Require Export Outcome Bytes.
 
-Definition E_INVALID_PACKET : Z := 10.
 
 Definition ACK_HEADER_LENGTH : Z := 12.   (* 4 + 8 *)
 Definition CMD_HEADER_LEN : Z := 12.      (* header_len() = 4 + CommandCcd::len() *)
